@@ -22,7 +22,7 @@ use std::collections::{BTreeMap, BTreeSet, VecDeque};
 use std::rc::Rc;
 use std::sync::Arc;
 
-// @grid c02_grid_read_ahead_independence tier=quick bound="921 family queries (single edges and sibling pairs x scopes x filters) and every numbers query of the corpus; 5 chunk-size schedules (all 1, all 4, and three mixed 2-bit sequences), read-ahead on both the inputs and the outputs of every resolver, first chunk fetched inside the resolver call (5 schedules) or on the first poll (3 schedules)"
+// @grid c02_grid_read_ahead_independence tier=quick bound="[+ seeded random accepted documents, VERIF_SEED] 921 family queries (single edges and sibling pairs x scopes x filters) and every numbers query of the corpus; 5 chunk-size schedules (all 1, all 4, and three mixed 2-bit sequences), read-ahead on both the inputs and the outputs of every resolver, first chunk fetched inside the resolver call (5 schedules) or on the first poll (3 schedules)"
 // @ob the sequence of result rows is identical whatever chunk sizes an order-preserving adapter uses to pull its input contexts and buffer its outputs, including eager pre-fetching before its first output; the engine does not crash when an adapter reads ahead
 pub(crate) fn c02_grid_read_ahead_independence() {
     let mut n = 0u64;
@@ -30,7 +30,7 @@ pub(crate) fn c02_grid_read_ahead_independence() {
     let schema = NumbersAdapter::new();
     let mut cases: Vec<(String, String, BTreeMap<Arc<str>, FieldValue>)> = Vec::new();
     for t in family_depth1_and_pairs() { let q = query_text(&t, 0, 6); let a = family_args(&q).into_iter().map(|(k, v)| (Arc::from(k), v)).collect(); cases.push((q.clone(), q, a)); }
-    for c in corpus() { if c.schema_name == "numbers" { cases.push((c.name.clone(), c.query.clone(), c.arguments.clone())); } }
+    for c in crate::verif_corpus::corpus_with_random(150, 2) { if c.schema_name == "numbers" { cases.push((c.name.clone(), c.query.clone(), c.arguments.clone())); } }
     for (label, q, args) in cases {
         vk::grid_case(format_args!("{}", label));
         let Ok(iq) = crate::frontend::parse(schema.schema(), &q) else { continue; };
